@@ -261,4 +261,66 @@ def reprOk (e : Entry) : Bool :=
 def reprOkDb (d : BibData) : Bool :=
   (d.entries.map fun e => lowerU e.key).Pairwise (· ≠ ·) && d.entries.all reprOk
 
+/-! ### the serialiser hypothesis, per tree; the databases written along a chain
+
+The YAML / XML libraries are parameters of the model (`Serial`).  They are NOT lossless on every
+tree (PyYAML fails on U+0085, XML on non-XML names and characters), so the round-trip theorems ask
+for losslessness only on the trees pybtex actually hands them. -/
+
+/-- the serialiser is lossless on the ONE tree pybtex hands it when the database `d` is written in
+the format `f` (nothing is asked for BibTeX: its text is produced and read by pybtex itself) -/
+def LosslessOn (S : Serial) (f : Fmt) (d : BibData) : Prop :=
+  match f with
+  | .bibtex => True
+  | .yaml => S.loadY (S.dumpY (toDictYaml d)) = some (toDictYaml d)
+  | .bibtexml => S.loadX (S.dumpX (toTreeXml d)) = some (toTreeXml d)
+
+/-- the (format, database written in it) pairs of the conversions of a chain after the first
+format, in closed form: with `preserve_case = False` the database is lower-cased first; what is
+read back is `canonFor` of what was written -/
+def stagesFrom (preserveCase : Bool) : List Fmt → BibData → List (Fmt × BibData)
+  | [], _ => []
+  | f :: fs, d =>
+    (f, if preserveCase then d else lowerSpec d) ::
+      stagesFrom preserveCase fs (canonFor f (if preserveCase then d else lowerSpec d))
+
+/-- the (format, database written in it) pairs of a chain of formats, in closed form -/
+def stages (preserveCase : Bool) : List Fmt → BibData → List (Fmt × BibData)
+  | [], _ => []
+  | f :: fs, d => (f, d) :: stagesFrom preserveCase fs (canonFor f d)
+
+/-- a result of `parse_string` with nothing reported -/
+def cleanRead (db : BibData) : ReadRes := { db := db, badNames := [], repeated := [], others := 0 }
+
+/-- the conversions of a chain after the first format (`chainFrom`), keeping everything that is
+reported on the way: per step the reader's result and the keys `lower()` reports as repeated -/
+def chainFromLog (S : Serial) (preserveCase : Bool) :
+    List Fmt → BibData → Except WErr (BibData × List (ReadRes × List Str))
+  | [], d => .ok (d, [])
+  | f :: fs, d =>
+    match writeFmt S f (if preserveCase then d else (dbLower d).1) with
+    | .error e => .error e
+    | .ok text =>
+      match readFmt S f text with
+      | .error e => .error e
+      | .ok r =>
+        match chainFromLog S preserveCase fs r.db with
+        | .error e => .error e
+        | .ok (d', log) => .ok (d', (r, if preserveCase then [] else (dbLower d).2) :: log)
+
+/-- a chain of formats (`chain`), keeping everything that is reported on the way -/
+def chainLog (S : Serial) (preserveCase : Bool) :
+    List Fmt → BibData → Except WErr (BibData × List (ReadRes × List Str))
+  | [], d => .ok (d, [])
+  | f :: fs, d =>
+    match writeFmt S f d with
+    | .error e => .error e
+    | .ok text =>
+      match readFmt S f text with
+      | .error e => .error e
+      | .ok r =>
+        match chainFromLog S preserveCase fs r.db with
+        | .error e => .error e
+        | .ok (d', log) => .ok (d', (r, []) :: log)
+
 end Pybtex.BibWrite
